@@ -256,11 +256,15 @@ def bits_to_float(h):
     return struct.unpack(">d", bytes.fromhex(h))[0]
 
 
+BEYOND = "beyond-one-rounding"     # class of the known finding C13-reader-beyond-one-rounding (replay field "class")
+
+
 def same_tokens(lib, ref, ftol):
     """lib: tokens of the library dump; ref: tokens from py_parse. Returns None or a reason.
     ftol None: structure only (same tokens, a double wherever the reference has a non-int64 number)"""
     if len(lib) != len(ref):
         return "different shape (%d vs %d tokens)" % (len(lib), len(ref))
+    beyond = None
     for a, b in zip(lib, ref):
         if isinstance(b, tuple):
             if not a.startswith("d"):
@@ -268,12 +272,15 @@ def same_tokens(lib, ref, ftol):
             x = bits_to_float(a[1:17])
             if ftol is not None and not (abs(x - b[1]) <= ftol(b[1])):
                 return "double differs: library %r reference %r" % (x, b[1])
-            if ftol is not None and "nearest" in OPEN and len(b) > 2 and one_rounding(b[2]) and struct.pack(">d", b[1]).hex() != a[1:17]:
-                return "not the nearest double: %s is read as %r (%s), the nearest double is %r (%s)" % (
+            if ftol is not None and "nearest" in OPEN and len(b) > 2 and struct.pack(">d", b[1]).hex() != a[1:17]:
+                why = "not the nearest double: %s is read as %r (%s), the nearest double is %r (%s)" % (
                     b[2][:40], x, a[1:17], b[1], struct.pack(">d", b[1]).hex())
+                if one_rounding(b[2]):
+                    return why
+                beyond = beyond or BEYOND + ": " + why   # known finding; a failure inside the class elsewhere in the document goes first
         elif a != b:
             return "token differs: library %s reference %s" % (a[:60], b[:60])
-    return None
+    return beyond
 
 
 def tol_parse(x):     # iwstrtod accumulates rounding errors (known, floats are outside the model): gross errors only
@@ -479,9 +486,11 @@ EXACT_DOUBLES = [0.1, 0.3, 1.0 / 3, 2.0 ** -1074, 2.0 ** -1022, math.nextafter(2
                  2.0 ** -30, 1e-7, 5e-5, 123456.789, 1e22, 1e23, 2.0 ** 63, 2.0 ** 64, 4503599627370496.5, 2.0 ** -60, 1e-25, 1e-24, 1e-26]
 DBL_MAX_TEXT = format(Decimal(1.7976931348623157e308), "f")
 # range-exp (exponents beyond +-308 of representable numbers) is judged by default since the repair a215cb1 in /repo
-# refused: 2.2250738585072011e-308 must be accepted (fixes/jtext-strtod-refused.diff); nearest: texts of the class `one_rounding` must be
-# read as the NEAREST double, bit for bit (fixes/jtext-strtod-nearest.diff) - both tolerated by default until the repairs are in /repo
-OPEN = set(os.environ.get("VERIF_JTEXT_OPEN", "range-exp").replace("all", "range-exp,range-mant,refused,nearest").replace("range,", "range-exp,").split(",")) - {""}
+# refused: 2.2250738585072011e-308 must be accepted (repair 14689de); nearest: EVERY number text must be read as the NEAREST double, bit
+# for bit (the property's words).  Texts of the class `one_rounding` are read so since the repair 7355ecb - a miss there is a VIOLATION;
+# a miss outside the class carries "class": "beyond-one-rounding" in its replay = known finding C13-reader-beyond-one-rounding.
+# All three are judged by default.
+OPEN = set(os.environ.get("VERIF_JTEXT_OPEN", "range-exp,refused,nearest").replace("all", "range-exp,range-mant,refused,nearest").replace("range,", "range-exp,").split(",")) - {""}
 if "range" in OPEN:
     OPEN.add("range-exp")
 
@@ -589,6 +598,7 @@ def number_edges(rng):
         out += [t, t + "e0", t + E() + "-5", t + E() + "+5"]
         if "." in t:
             out.append(t.rstrip("0") + "0" * 30)
+    out += ["123456789012345683968", "1e23", "51.0E-24", "0.1318609e-20", "4276604189125701.3e-8"]   # beyond the one-rounding class: live reproduction of the known finding
     out += ["9223372036854775808", "9223372036854775808.0", "9223372036854774784.0", "9223372036854777856", "18446744073709551615",
             "18446744073709551615.0", "10000000000000000000", "0.1", "0.3", "0.7", "1.1", "4503599627370497.5", "9007199254740992e22",
             "9007199254740991e-22", "123456789012345678e-2", "1e22", "1e-22", "8.5e-21", "1234567.12345678", "0.00000001",
@@ -1056,8 +1066,12 @@ def check(run):
     nviol = {}
 
     def viol(q, impl_out, why, kind, doc=None, extra=None):
-        nviol[kind] = nviol.get(kind, 0) + 1
-        if nviol[kind] <= 3:                       # a few replays per kind of failure are enough
+        m_ = re.search(re.escape(BEYOND) + ": ", why[:200])
+        if m_:                                     # the reader's accuracy outside the one-rounding class: matched by the known finding
+            why, extra = why[:m_.start()] + why[m_.end():], dict(extra or {}, **{"class": BEYOND})
+        ck = kind + "/" + (extra or {}).get("class", "")
+        nviol[ck] = nviol.get(ck, 0) + 1
+        if nviol[ck] <= 3:                         # a few replays per kind of failure are enough
             r = {"query": q, "impl": impl_out, "kind": kind}
             if doc is not None:
                 r["document"] = doc.decode("latin-1")[:2000]
@@ -1340,8 +1354,8 @@ def check(run):
                     viol(l, o, "the library reads its own text %r back as %r instead of %r" % (bytes.fromhex(f[1]), y, x), "dbl-self")
                 elif "nearest" in OPEN and f[5][0] == "d":
                     t = bytes.fromhex(f[1]).decode()[1:-1]
-                    if one_rounding(t) and struct.pack(">d", y) != struct.pack(">d", float(t)):
-                        viol(l, o, "the library reads its own text %s back as %r (%s), the nearest double is %r%s" % (
+                    if struct.pack(">d", y) != struct.pack(">d", float(t)):
+                        viol(l, o, ("" if one_rounding(t) else BEYOND + ": ") + "the library reads its own text %s back as %r (%s), the nearest double is %r%s" % (
                             t, y, struct.pack(">d", y).hex(), float(t), " - the printed value itself" if float(t) == x else ""), "dbl-nearest")
 
     # ---------------- ORACLE 4: utf8 encoder against Python's
